@@ -81,6 +81,47 @@ CONGRUENCE = "tensorly.metrics.factors.congruence_coefficient"
 PERMUTE = "tensorly.cp_tensor.cp_permute_factors"
 
 
+def _families(fnode, seeds):
+    """name -> family: a local assigned from / iterating over an expression that mentions names of
+    exactly one family belongs to that family (flow-insensitive; a name reached from two families is
+    MIXED).  Loop targets over zip(a, b) / enumerate(a) take the family of their own operand."""
+    fam = dict(seeds)
+    fixed = set(seeds)
+
+    def family(e):
+        fs = {fam[n.id] for n in ast.walk(e) if isinstance(n, ast.Name) and n.id in fam}
+        return fs.pop() if len(fs) == 1 else None
+
+    def give(name, v):
+        if v is None or name in fixed:
+            return False
+        if name not in fam:
+            fam[name] = v
+            return True
+        if fam[name] != v and fam[name] != "MIXED":
+            fam[name] = "MIXED"
+            return True
+        return False
+
+    changed = True
+    while changed:
+        changed = False
+        for s in own_scope_nodes(fnode):
+            if isinstance(s, ast.Assign) and len(s.targets) == 1 and isinstance(s.targets[0], ast.Name):
+                changed |= give(s.targets[0].id, family(s.value))
+            elif isinstance(s, (ast.For, ast.comprehension)):
+                it, tg = s.iter, s.target
+                if isinstance(it, ast.Call) and is_name(it.func, "zip") and isinstance(tg, ast.Tuple) and len(tg.elts) == len(it.args):
+                    for e, a in zip(tg.elts, it.args):
+                        if isinstance(e, ast.Name):
+                            changed |= give(e.id, family(a))
+                elif isinstance(it, ast.Call) and is_name(it.func, "enumerate") and it.args and isinstance(tg, ast.Tuple) and len(tg.elts) == 2 and isinstance(tg.elts[1], ast.Name):
+                    changed |= give(tg.elts[1].id, family(it.args[0]))
+                elif isinstance(tg, ast.Name) and not (isinstance(it, ast.Call) and is_name(it.func, "range")):
+                    changed |= give(tg.id, family(it))
+    return fam, family
+
+
 def _perm_direction(ctx):
     """Read from congruence_coefficient's source which way the returned permutation goes:
     (index space, value space) as positions of its two matrix parameters.
@@ -100,15 +141,19 @@ def _perm_direction(ctx):
     if pair is None:
         raise AnalysisError("PERM-SPACE: congruence_coefficient no longer pairs its two arguments with zip(...); cannot decide")
     rows = cols = None
+    # values derived from one member of a pair (norms, normalised copies) stay in its column space
+    _, pfam = _families(f.node, pair)
     for c in nodes:
         if isinstance(c, ast.Call) and call_name(c) in ("dot", "matmul") and len(c.args) == 2:
             l, r = c.args
+            if isinstance(l, ast.Name):
+                from ..common import inline_locals
+
+                l = inline_locals(f.node, l)
             if isinstance(l, ast.Call) and call_name(l) in ("transpose", "conj") and l.args:
-                inner = l.args[0]
-                while isinstance(inner, ast.Call) and inner.args:
-                    inner = inner.args[0]
-                if isinstance(inner, ast.Name) and inner.id in pair and isinstance(r, ast.Name) and r.id in pair:
-                    rows, cols = pair[inner.id], pair[r.id]
+                fl, fr = pfam(l.args[0]), pfam(r)
+                if fl in (p1, p2) and fr in (p1, p2):
+                    rows, cols = fl, fr
     if rows is None or rows == cols:
         raise AnalysisError("PERM-SPACE: the cross-product dot(transpose(a), b) of congruence_coefficient was not found; cannot decide")
     # (row_ind, col_ind) = linear_sum_assignment(...)
@@ -140,7 +185,9 @@ def _perm_direction(ctx):
             comp = s.value
     if comp is None or not (isinstance(comp.elt, ast.Subscript) and is_name(comp.elt.value, dname)):
         raise AnalysisError("PERM-SPACE: the returned permutation is no longer [assignment[i] for i in ...]; cannot decide")
-    rng_src = src(comp.generators[0].iter)
+    from ..common import inline_locals
+
+    rng_src = src(inline_locals(f.node, comp.generators[0].iter))
     ranged = p1 if p1 in rng_src and p2 not in rng_src else (p2 if p2 in rng_src and p1 not in rng_src else None)
     ok_internal = ranged == key_space
     return f, (p1, p2), key_space, val_space, ok_internal, ranged
@@ -157,25 +204,7 @@ def perm_space(ctx: Ctx):
     g = ctx.repo.func(PERMUTE)
     ref_p, cand_p = g.pos_params[0], g.pos_params[1]
     # families by name flow: a name assigned from an expression mentioning only one family belongs to it
-    fam = {ref_p: "REF", cand_p: "CAND"}
-    changed = True
-    while changed:
-        changed = False
-        for s in own_scope_nodes(g.node):
-            if isinstance(s, ast.Assign) and len(s.targets) == 1 and isinstance(s.targets[0], ast.Name):
-                used = {fam[n.id] for n in ast.walk(s.value) if isinstance(n, ast.Name) and n.id in fam}
-                if len(used) == 1:
-                    v = used.pop()
-                    if fam.get(s.targets[0].id) != v and s.targets[0].id not in (ref_p, cand_p):
-                        if s.targets[0].id in fam:
-                            fam[s.targets[0].id] = "MIXED"
-                        else:
-                            fam[s.targets[0].id] = v
-                        changed = True
-
-    def family(e):
-        fs = {fam[n.id] for n in ast.walk(e) if isinstance(n, ast.Name) and n.id in fam}
-        return fs.pop() if len(fs) == 1 else None
+    fam, family = _families(g.node, {ref_p: "REF", cand_p: "CAND"})
 
     calls = [(s, s.value) for s in own_scope_nodes(g.node) if isinstance(s, ast.Assign) and isinstance(s.value, ast.Call) and call_name(s.value) == "congruence_coefficient"]
     if not calls:
